@@ -2,11 +2,10 @@ import PPLV.Checked.Proofs3
 /-!
 # C11 proofs, part 4: fused multiply-add and multiply-subtract
 
-`add_mul_int` is correct.  `sub_mul_int` claims a negative overflow whenever the product
-overflowed positively and `to ≤ 0`; for `to = 0` and a product of exactly `max + 1` the exact
-result is `-(max + 1)`, which **is** representable when the finite range is the asymmetric two's
-complement one (signed type, policy without NaN): the code reports an overflow that did not
-happen (`subMul_fails` in `Props/C11.lean`).  `subMul_ok_partial` excludes exactly that input.
+After a positive overflow of the product `sub_mul_int` claims a negative overflow when `to < 0`, and
+for `to = 0` only if the finite range is symmetric (`min + max ≥ 0`); on the asymmetric two's
+complement range `0 - (max + 1) = min` is representable and the answer is "unknown"
+(/repo 295149f; before: `to ≤ 0`, `C11.subMul_holds_before_fix_fails`).
 -/
 namespace PPLV.Checked
 open Result
@@ -92,18 +91,24 @@ theorem addMul_ok {t : IntTy} {π : Policy} (w : t.WF π) (hl : t.LargerOK)
     · exact tri_ok w hr0 (tri_pos (by omega))
     · exact ok_assignNan w dir hr0 rfl (Or.inr (Or.inl rfl))
 
-/-- **partial**: the input class `to = 0 ∧ x·y = max + 1` on a signed type under a policy
-without NaN is excluded (there the code reports an overflow for the representable result `min`). -/
-theorem subMul_ok_partial {t : IntTy} {π : Policy} (w : t.WF π) (hl : t.LargerOK)
+/-- **`sub_mul_int`** (as repaired by /repo 295149f) -/
+theorem subMul_ok {t : IntTy} {π : Policy} (w : t.WF π) (hl : t.LargerOK)
     (hco : π.checkOverflow = true) (dir : Dir) {to0 x y : Int} (h0 : t.finite π to0)
-    (hx : t.finite π x) (hy : t.finite π y)
-    (side : π.hasNan = true ∨ t.signed = false ∨ ¬ (to0 = 0 ∧ x * y = t.emax π + 1)) :
+    (hx : t.finite π x) (hy : t.finite π y) :
     OK t π dir (subMul t π to0 x y dir) (.fin (to0 - x * y)) := by
   have hr0 := IntTy.finite_inRange h0
   have hz : t.inRange 0 := by
     obtain ⟨a, b⟩ := IntTy.emin_le_emax w
     exact IntTy.finite_inRange (π := π) ⟨a, b⟩
   have hge : t.signed = true → t.emax π ≤ -(t.emin π) := IntTy.neg_emin_ge_emax w
+  have hle : -(t.emin π) ≤ t.emax π + 1 ∨ t.signed = false := by
+    cases hs : t.signed
+    · exact Or.inr rfl
+    · left
+      obtain ⟨hp, hr⟩ := w.half_facts
+      unfold IntTy.emin IntTy.emax IntTy.cmin IntTy.cmax b2i
+      generalize t.half = H at *
+      layout_cases t π
   have hun : t.signed = false → 0 ≤ x * y ∧ t.emin π = 0 := fun hs =>
     ⟨Int.mul_nonneg (by have := (IntTy.finite_bounds hx).2 hs; omega) (by have := (IntTy.finite_bounds hy).2 hs; omega),
      by simp [IntTy.emin, IntTy.cmin, hs]⟩
@@ -126,21 +131,15 @@ theorem subMul_ok_partial {t : IntTy} {π : Policy} (w : t.WF π) (hl : t.Larger
     simp only [resultOverflow_setPos, show ((1 : Int) == 0) = false from rfl,
       show ((1 : Int) == -1) = false from rfl, Bool.false_eq_true, if_false]
     split
-    · rename_i hto
+    · rename_i hc
       apply tri_ok w hr0 (tri_neg _)
-      rcases side with hn | hu | hne
-      · have := IntTy.neg_emin_le_emax w (Or.inl hn); omega
-      · have := IntTy.neg_emin_le_emax w (π := π) (Or.inr hu); omega
-      · -- asymmetric layout: -min = max + 1, so only `to = 0 ∧ x*y = max + 1` reaches `min`
-        by_cases h : to0 = 0 ∧ x * y = t.emax π + 1
-        · exact absurd h hne
-        · have : t.emax π + 1 ≤ -(t.emin π) ∨ -(t.emin π) ≤ t.emax π := by omega
-          have hle : -(t.emin π) ≤ t.emax π + 1 := by
-            obtain ⟨hp, hr⟩ := w.half_facts
-            unfold IntTy.emin IntTy.emax IntTy.cmin IntTy.cmax b2i
-            generalize t.half = H at *
-            layout_cases t π
-          omega
+      simp only [Bool.or_eq_true, decide_eq_true_eq, Bool.and_eq_true, beq_iff_eq] at hc
+      have h01 := h0.1
+      rcases hc with hc | ⟨hc1, hc2⟩
+      · rcases hle with h | h
+        · omega
+        · have := hun h; omega
+      · omega
     · exact ok_assignNan w dir hr0 rfl (Or.inr (Or.inl rfl))
 
 end PPLV.Checked
